@@ -434,6 +434,9 @@ class TJPTransformer(Transformer[Any, Any]):
 
     # Named task attribute rules
     def task_start(self, items: list[Any]) -> tuple[str, Any]:
+        if isinstance(items[0], Token) and items[0].type == "MACRO_REF":
+            # A macro reference that survived macro expansion names no macro
+            raise ValueError(f"Undefined macro {items[0]} used as start date")
         return ("start", items[0])
 
     def task_end(self, items: list[Any]) -> tuple[str, Any]:
